@@ -1,9 +1,10 @@
 """C10 — combinational loops are detected exactly, and the reported loop is real."""
 from props.common_prog import judge_prog
 
-THEOREM_MODULES = ["Hcl.Theorems.C10"]
+THEOREM_MODULES = ["Hcl.Theorems.C10", "Hcl.Tie.PinsGraph"]
 THEOREMS = {"Hcl.Theorems.C10": ["C10_accepted_acyclic", "C10_cycle_iff", "C10_sorter_spec", "C10_never_panics", "C10_reported_loop_is_real",
-                                 "C10_reported_loop_real", "Program_new_nl", "resolveConstants_nl", "assignmentsToActions_nl", "check_nl"]}
+                                 "C10_reported_loop_real", "Program_new_nl", "resolveConstants_nl", "assignmentsToActions_nl", "check_nl"],
+            "Hcl.Tie.PinsGraph": ["Tie.PinsGraph.pinTopologicalSort", "Tie.PinsGraph.pinFindCycle"]}
 
 RULE = ("S-GRAPH: every digraph (self loops allowed) on 0..4 labelled nodes in quick (0..4 plus all 2^25 on 5 nodes "
         "in thorough) and random graphs of 5-40 nodes near the cyclic threshold are sorted by the real "
